@@ -89,6 +89,7 @@ def run(ctx: common.Ctx):
     for t in tasks:
         if "spec" not in t and t["index"] < (60 if ctx.thorough else 8):
             t["order_codegen"] = True
+        t["call_sequences"] = ctx.thorough or t["index"] % 2 == 0
     try:
         results = distwork.run_pool(distwork.c08_unit, tasks,
                                     deadline_s=3000 if ctx.thorough else 600)
@@ -102,6 +103,7 @@ def run(ctx: common.Ctx):
     queries, qmeta = [], []
     n_exec_cases = n_exec_dis = n_exec_nontriv = n_prog_comm = 0
     order_cnt = collections.Counter()
+    call_cnt = collections.Counter()
     for t, res in zip(tasks, results):
         if res.get("timeout"):
             raise common.LeanError(f"C08: program {t} timed out inside fakempi")
@@ -166,6 +168,18 @@ def run(ctx: common.Ctx):
                               f"find_distributed_partition everything passes",
                               dict(replay_base, order=pb["order"], what=pb["what"], detail=pb["detail"],
                                    choices=pb.get("choices", [])))
+        cs = res.get("calls")
+        if cs:
+            call_cnt.update(cs["counters"])
+            call_cnt["programs"] += 1
+            for pb in cs["problems"]:
+                call_cnt["problems"] += 1
+                ctx.violation(f"call-sequence:{pb['mode']}:{pb['what']}",
+                              f"the partition of a valid program (seed={t['seed']} index={t['index']} "
+                              f"profile={t['profile']}) executed repeatedly ({pb['mode']}): call {pb['call']} "
+                              f"(counting from 0): {pb['detail']}",
+                              dict(replay_base, mode=pb["mode"], call=pb["call"], what=pb["detail"],
+                                   choices=pb.get("choices", [])))
         if res["py_clauses"] and not ex["failures"]:
             # C09's business, noted here for the record
             dist["py-clause-failures"] += 1
@@ -221,6 +235,15 @@ def run(ctx: common.Ctx):
                        "real executor (first-option and one seeded schedule) must give the reference values, and "
                        "generate_code_for_partition (first programs only) the same kernels, argument order and "
                        "bound arguments per part")
+    ctx.note_batch("call-sequences", call_cnt["calls"], call_cnt["problems"], exhaustive=False,
+                   nontrivial=call_cnt["calls"], programs=call_cnt["programs"], sequences=call_cnt["sequences"],
+                   how="the numbered partition of a valid program executed 3 times in a row by the real "
+                       "execute_distributed_partition (as a time loop does), once per way of handing over the "
+                       "inputs: the SAME dict object every time / a fresh copy per call / the same object with one "
+                       "input per rank replaced by the caller between calls; every call must return the reference "
+                       "values for ITS inputs and leave the caller's dict as it was (same keys, same objects, "
+                       "nothing added); the latter is also checked after every single execution of batch 1 "
+                       "(failure class caller-input-dict-modified)")
     ctx.coverage["programs"] = len(tasks)
     ctx.coverage["program_distribution"] = dict(sorted(dist.items()))
     ctx.coverage["topologies"] = dict(sorted(topo.items()))
